@@ -45,7 +45,12 @@ def rule_wrapper(ctx):
             ctx.check(rets and all(r == n for r in rets) and len(rets) == len(outs), R, "sized-identity",
                       "for a length-delimited body the advertised maximum input is the output length itself", loc=body_loc(cm), detail=[repr(r)[:80] for r in rets])
         else:
-            ok = rets and len(rets) == len(outs) and all(r != n and r[0] == "term" and "('in', 'n')" in repr(r) and "'Div'" in repr(r) for r in rets)
+            # exactly the closed form: every value the wrapper can return is a value the closed form returns for the same n
+            fb = prog.find("calculate_max_input")
+            fr_ = set()
+            if fb is not None:
+                fr_ = set(tree_leaf(o.ret) for o in I.run(fb, [{(): n}], lambda st: None) if o.kind == "return")
+            ok = rets and len(rets) == len(outs) and fr_ and all(r in fr_ for r in rets)
             ctx.check(ok, R, "chunked-formula", "for a chunked body the advertised maximum is the closed-form bound applied to the output length",
                       loc=body_loc(cm), detail=[repr(r)[:120] for r in rets][:3])
 
@@ -493,10 +498,82 @@ def rule_writer_schema(ctx):
                 dest = (bw.term(cb).get("dest") or bw.term(cb).get("destination") or {}).get("local")
                 d = t.get("discr", {})
                 pl = d.get("place", {}).get("local") if isinstance(d, dict) else None
-                okloop = pl == dest and dest is not None
-                detail.append("switch on local %s, call destination %s" % (pl, dest))
+                # the switched value is the call's result, possibly through plain copies / moves (`let another = ..`)
+                aliases = {dest}
+                changed_ = True
+                while changed_:
+                    changed_ = False
+                    for x in cyc:
+                        for s_ in bw.blocks[x]["stmts"]:
+                            if s_["k"] == "assign" and not s_["place"]["proj"] and s_["rv"]["k"] == "use" \
+                                    and s_["rv"]["op"].get("k") in ("copy", "move") and not s_["rv"]["op"]["place"]["proj"] \
+                                    and s_["rv"]["op"]["place"]["local"] in aliases and s_["place"]["local"] not in aliases:
+                                aliases.add(s_["place"]["local"])
+                                changed_ = True
+                okloop = pl in aliases and dest is not None
+                detail.append("switch on local %s, call destination %s (aliases %s)" % (pl, dest, sorted(aliases)))
         ctx.check(okloop, R, "chunk-loop", "the chunk loop is left only through the writer's own `false` (no other exit, no extra condition)",
                   loc=body_loc(bw), detail=detail)
+
+
+def _subterms(x, acc):
+    if isinstance(x, tuple):
+        if x and x[0] == "term":
+            acc.add(x)
+        for y in x:
+            _subterms(y, acc)
+
+
+def room_terms(st, extra=()):
+    """terms that denote the free room of the output writer: len(output buffer) - position, or len(output)"""
+    acc = set()
+    for k in st.facts:
+        _subterms(k, acc)
+    for e in extra:
+        _subterms(e, acc)
+    out = set()
+    for t in acc:
+        x = t[1]
+        rp = repr(t)
+        if "('in', 'output')" not in rp:
+            continue
+        if x[0] == "arith" and x[1] == "Sub" and "'len'" in repr(x[2]) and ("position" in repr(x[3]) or "'len'" in repr(x[3])) and "'min'" not in rp:
+            out.add(t)
+        elif x[0] == "len" and "'min'" not in rp and "'slice'" not in rp:
+            out.add(t)
+    return out
+
+
+def sized_amount_verdict(I, st, c):
+    """[] when the consumed amount c of a length-delimited write is exactly min(room, input, remaining) on this path --
+    as a `min` term or as one of the three chosen by comparisons; else the reasons"""
+    LEN = ("term", ("len", ("in", "input")))
+    bad = []
+    rooms = room_terms(st, extra=(c,))
+    kinds = set()
+    for l in _flatten_min(c):
+        rp = repr(l)
+        if l == LEN:
+            kinds.add("input")
+        elif "('in', 'left')" in rp and "'satsub'" not in rp and "'Sub'" not in rp and "'Add'" not in rp:
+            kinds.add("remaining")
+        elif l in rooms:
+            kinds.add("room")
+        elif l[0] == "int" and l[1] >= (1 << 63):
+            pass
+        else:
+            kinds.add("other:" + rp[:80])
+    other = [k for k in kinds if k.startswith("other:")]
+    if other:
+        bad.append("the amount is bounded by something else than room / input / remaining: %s" % other[0][6:])
+    if not I.decide_le(st, c, LEN):
+        bad.append("not bounded by the input length")
+    if not I.decide_le(st, c, ("term", ("in", "left"))):
+        bad.append("not bounded by the remaining length")
+    if not rooms or not any(c == r or I.decide_le(st, c, r) for r in rooms):
+        bad.append("not bounded by the output room")
+    # exact: c <= each of the three is proven above; c is a min over (a subset of) the three, hence >= their minimum
+    return bad
 
 
 def rule_sized_exact(ctx):
@@ -519,24 +596,7 @@ def rule_sized_exact(ctx):
             continue
         n += 1
         c = o.ret.get((("v", "Ok"), ("f", "0"), ("f", "0")))
-        leaves = _flatten_min(c)
-        kinds = set()
-        for l in leaves:
-            rp = repr(l)
-            if l == ("term", ("len", ("in", "input"))):
-                kinds.add("input")
-            elif "('in', 'left')" in rp and "'satsub'" not in rp and "'Sub'" not in rp:
-                kinds.add("remaining")
-            elif l[0] == "term" and l[1][0] == "arith" and l[1][1] == "Sub" and ("'len'" in repr(l[1][2])) and ("position" in repr(l[1][3]) or "len" in repr(l[1][3])) and "('in', 'output')" in rp:
-                kinds.add("room")
-            elif l[0] == "term" and l[1][0] == "len" and "('in', 'output')" in rp:
-                kinds.add("room")
-            elif l[0] == "int" and l[1] >= (1 << 64) - 1:
-                pass
-            else:
-                kinds.add("other:" + rp[:100])
-        if kinds != {"input", "remaining", "room"}:
-            bad.append("consumed = min over %s" % sorted(kinds))
+        bad.extend(sized_amount_verdict(I, o.state, c))
     ctx.check(n >= 1 and not bad, R, "sized-exact", "a length-delimited write consumes exactly min(output room, input length, remaining length): "
               "no reserve is held back, so n bytes of input fill n bytes of output", loc=body_loc(prog.find("BodyWriter::write") or wr), detail=sorted(set(bad))[:4])
 
